@@ -74,8 +74,8 @@ def run(ctx: Ctx):
         "two Einsums: additivity of energy/latency and the shared-prefix + max-over-branches peak usage are assumed (C04/C06's subject)",
         "usage objectives: one coordinate per memory of finite size (the reservation columns the mapper reports)",
     ]
-    n = 24 if ctx.thorough else 6
-    limit = 400_000 if ctx.thorough else 70_000
+    n = 36 if ctx.thorough else 5
+    limit = 600_000 if ctx.thorough else 70_000
     ML.init(1)
     drv = ctx.driver()
     fam = MS.family(ctx, drv, n, limit, MIX_THOROUGH if ctx.thorough else MIX_QUICK)
